@@ -503,8 +503,30 @@ fn emit_tx(tr: &mut Trace, abi: &Abi, fs: &ScriptedFs, transport: &str, opname: 
     }
     let written: Vec<Value> = o.written.iter().map(|(a, l)| json!([a, l])).collect();
     let wsegs: Vec<Value> = o.wsegs.iter().map(|(a, l)| json!([a, l])).collect();
+    // raw observation: every name the file system received is a run of bytes of the request that was supplied (a name
+    // made of anything else was read from memory outside the supplied buffers)
+    let mut names_from_request = true;
+    for c in calls.iter().filter(|c| c["m"] != "id_remap") {
+        if let Some(a) = c["args"].as_object() {
+            for (k, v) in a {
+                if !(k.contains("name")) {
+                    continue;
+                }
+                if let Some(sv) = v.as_str() {
+                    let nb: Vec<u8> = if let Some(h) = sv.strip_prefix("hex:") {
+                        (0..h.len() / 2).map(|i| u8::from_str_radix(&h[2 * i..2 * i + 2], 16).unwrap_or(0)).collect()
+                    } else {
+                        sv.as_bytes().to_vec()
+                    };
+                    if !nb.is_empty() && !b.bytes.windows(nb.len()).any(|w| w == &nb[..]) {
+                        names_from_request = false;
+                    }
+                }
+            }
+        }
+    }
     let ev = json!({"e": "Tx", "tr": transport, "op": opname, "gen": gen, "req": b.req, "calls": calls,
-        "out": {"ret": o.ret, "retc": if o.ret.starts_with("ok") { "Ok" } else if o.ret.starts_with("err") { "Err" } else { "panic" }, "nmsgs": o.msgs.len(), "canary_ok": o.canary_ok, "tail_untouched": o.tail_untouched,
+        "out": {"ret": o.ret, "retc": if o.ret.starts_with("ok") { "Ok" } else if o.ret.starts_with("err") { "Err" } else { "panic" }, "nmsgs": o.msgs.len(), "canary_ok": o.canary_ok, "tail_untouched": o.tail_untouched, "names_from_request": names_from_request,
                 "written": written, "touched": touched, "dirty_reply": o.dirty_reply, "dirty_req": o.dirty_req, "wsegs": wsegs,
                 "msglens": o.msgs.iter().map(|m| m.len()).collect::<Vec<_>>()},
         "reply": reply, "x": extra});
